@@ -5,7 +5,7 @@ import vf.hx as hx
 from vf.spec import X
 from vf.stubs import NULL_LOGGER
 import ECAgent.Decode as D
-from ECAgent.Core import Model, System, Agent
+from ECAgent.Core import Model, System, Agent, SystemManager
 
 LOG = []
 MOD = __name__
@@ -67,7 +67,7 @@ def hook(params):
 _alt = types.ModuleType("vf_c18_alt")
 exec('''
 import ECAgent.Decode as D
-from ECAgent.Core import Model, System, Agent
+from ECAgent.Core import Model, System, Agent, SystemManager
 from vf.stubs import NULL_LOGGER
 LOG = None
 MOD = "vf_c18_alt"
@@ -249,6 +249,33 @@ def lifecycle(hm0: bool, hm1: bool, hs00: bool, hs01: bool, hs10: bool, hs11: bo
     return hx.end(True)
 
 
+def unbuildable(p0: int, p1: int, hs01: bool, hs11: bool, n0: int) -> bool:
+    """
+    pre: 0 <= n0 <= 2
+    post: _
+    """
+    # a description that cannot be built as listed (two listed systems share an id: a model holds one system per id):
+    # decode() either refuses it, or returns a model with exactly the listed systems - never a model that silently
+    # lacks a listed system
+    hx.begin()
+    del LOG[:]
+    hooks = {"pre_model": False, "post_model": True, "pre_sys": [False, False], "post_sys": [hs01, hs11],
+             "pre_grp": [False, False], "post_grp": [False, False]}
+    data, _ = _describe(MOD, 2, 1, hooks, [n0, 0], [p0, p1], [(0, 5, 1), (1, 7, 2)])
+    data["systems"][1]["params"]["id"] = "s0"
+    dec = Dec(data)
+    try:
+        model = dec.decode("file.json")
+    except KeyError:
+        hx.reach('refused')
+        return hx.end(True)
+    listed = [(p0, 0, 5, 1), (p1, 1, 7, 2)]
+    got = sorted((s_.priority, s_.start, s_.end, s_.frequency) for s_ in model.systems.execution_queue)
+    if got != sorted(listed):
+        return hx.end(hx.fail("decode() returned a model that lacks a listed system", queue=got, listed=listed))
+    return hx.end(True)
+
+
 def repeat(hm0: bool, hs0: bool, ha1: bool, n0: int, p0: int) -> bool:
     """
     pre: 0 <= n0 <= 2
@@ -327,6 +354,8 @@ def obligations(tier):
         return tuple(out)
     return [
         X("lifecycle", lifecycle, parts=parts, labels=("rich", "empty_group", "nested", "swapped"), labels_for=lab, timeout=1200, encoded=enc),
+        X("unbuildable", unbuildable, labels=("refused",), timeout=300, encoded=enc + (SystemManager.add_system,),
+          bounds={"description": "2 systems sharing an id, 1 agent group of 0..2 agents; priorities any ints"}),
         X("repeat", repeat, parts=[{"seq": [MOD, MOD]}, {"seq": [MOD, "vf_c18_alt"]}, {"seq": ["vf_c18_alt", MOD, "vf_c18_alt"]},
                  {"seq": [MOD, MOD], "same_dict": True}, {"seq": [MOD, "vf_c18_alt", MOD], "same_dict": True}],
           labels=("done",), timeout=600, encoded=enc),
